@@ -28,6 +28,28 @@ def pyMinQ (a b : Rat) : Rat := if a ≤ b then a else b
 def pyAbsI (a : Int) : Int := if a < 0 then -a else a
 def pyAbsQ (a : Rat) : Rat := if a < 0 then -a else a
 
+/-! ### floats that may be NaN (`none`); ±inf is folded into NaN, as in `Model/C06.lean` (every use feeds an
+"outside [0, 1]" or `isnan` test that treats both alike) -/
+def nLift2 (f : Rat → Rat → Rat) : Option Rat → Option Rat → Option Rat
+  | some a, some b => some (f a b)
+  | _, _ => none
+def nAdd := nLift2 (· + ·)
+def nSub := nLift2 (· - ·)
+def nMul := nLift2 (· * ·)
+def nMax := nLift2 pyMaxQ
+/-- division: x / 0 is inf or NaN in numpy -/
+def nDiv : Option Rat → Option Rat → Option Rat
+  | some a, some b => if b = 0 then none else some (a / b)
+  | _, _ => none
+def nNeg : Option Rat → Option Rat := Option.map (fun x => -x)
+def nAbs : Option Rat → Option Rat := Option.map pyAbsQ
+def nBind (x : Option Rat) (f : Rat → Option Rat) : Option Rat := x.bind f
+/-- comparisons with NaN are False -/
+def nLt : Option Rat → Option Rat → Bool | some a, some b => decide (a < b) | _, _ => false
+def nLe : Option Rat → Option Rat → Bool | some a, some b => decide (a ≤ b) | _, _ => false
+def nGt : Option Rat → Option Rat → Bool | some a, some b => decide (a > b) | _, _ => false
+def nGe : Option Rat → Option Rat → Bool | some a, some b => decide (a ≥ b) | _, _ => false
+
 /-- one element of `np.allclose(a, b)` with numpy's default tolerances: `|a - b| <= atol + rtol * |b|`, `atol = 1e-8`,
 `rtol = 1e-5` (as decimals; numpy evaluates the right-hand side in floating point, which is not modelled) -/
 def npClose (a b : Rat) : Bool := decide (pyAbsQ (a - b) ≤ 1 / 100000000 + 1 / 100000 * pyAbsQ b)
